@@ -197,18 +197,28 @@ TrApiRet ==      \* E.a: 0 ok, 1 ErrShutdown, 2 ErrDial, 3 other, 4 the caller's
     /\ UNCHANGED <<conns, cursor, idle, addrOf, open, used, up, closed, broken>> /\ RestNC /\ Adv
 
 \* the harness released the handler of caller E.c's abandoned call and its late answer has been read and discarded
+\* (nothing to do when the connection ended meanwhile: the abandoned call was swept with it)
 TrLate ==
-    /\ IsEv("env.late") /\ E.c \in Callers /\ cst[E.c] = "abandoned"
-    /\ busy' = [busy EXCEPT ![cconn[E.c]] = @ - 1]
-    /\ cconn' = [cconn EXCEPT ![E.c] = NoConn]
-    /\ cst' = [cst EXCEPT ![E.c] = "idle"]
+    /\ IsEv("env.late") /\ E.c \in Callers
+    /\ IF cst[E.c] = "abandoned"
+         THEN /\ busy' = [busy EXCEPT ![cconn[E.c]] = @ - 1]
+              /\ cconn' = [cconn EXCEPT ![E.c] = NoConn]
+              /\ cst' = [cst EXCEPT ![E.c] = "idle"]
+         ELSE KeepBusy /\ UNCHANGED cst
     /\ UNCHANGED <<conns, cursor, idle, addrOf, alive, open, used, up, closed, broken, failsSince>> /\ RestNC /\ Adv /\ NoFlag
+\* the abandoned calls on connections that end are swept with the rest of their tables
+AbandonedOn(S) == {k \in Callers : cst[k] = "abandoned" /\ cconn[k] \in S}
+SweepAbandoned(S) ==
+    /\ cst' = [k \in Callers |-> IF k \in AbandonedOn(S) THEN "idle" ELSE cst[k]]
+    /\ cconn' = [k \in Callers |-> IF k \in AbandonedOn(S) THEN NoConn ELSE cconn[k]]
+    /\ busy' = [c \in ConnIds |-> busy[c] - Cardinality({k \in AbandonedOn(S) : cconn[k] = c})]
 
 TrKill ==
     /\ IsEv("env.kill")
     /\ up' = [up EXCEPT ![AddrN(E.a)] = FALSE]
     /\ broken' = [c \in ConnIds |-> broken[c] \/ (addrOf[c] = AddrN(E.a) /\ open[c])]
-    /\ UNCHANGED <<conns, cursor, idle, addrOf, alive, open, used, closed, failsSince>> /\ RestNB /\ KeepBusy /\ Adv /\ NoFlag
+    /\ SweepAbandoned({c \in ConnIds : addrOf[c] = AddrN(E.a) /\ open[c]})
+    /\ UNCHANGED <<conns, cursor, idle, addrOf, alive, open, used, closed, failsSince>> /\ RestNC /\ Adv /\ NoFlag
 TrRestart ==
     /\ IsEv("env.restart")
     /\ up' = [up EXCEPT ![AddrN(E.a)] = TRUE]
@@ -218,7 +228,8 @@ TrRestart ==
 TrDrop ==     \* one connection cut by the environment; its effects are logged (t.dead, c.close)
     /\ IsEv("env.drop") /\ InIds(E.s)
     /\ broken' = [broken EXCEPT ![E.s] = TRUE]
-    /\ UNCHANGED <<conns, cursor, idle, addrOf, alive, open, used, up, closed, failsSince>> /\ RestNB /\ KeepBusy /\ Adv /\ NoFlag
+    /\ SweepAbandoned({E.s})
+    /\ UNCHANGED <<conns, cursor, idle, addrOf, alive, open, used, up, closed, failsSince>> /\ RestNC /\ Adv /\ NoFlag
 TrObsClosing == IsEv("obs.closing") /\ UNCHANGED vars /\ Adv /\ NoFlag
 TrObsDupSignal ==   \* the Done channel of an asynchronous call (Go / RoundTrip) was signalled a second time
     /\ IsEv("obs.dupsignal")
